@@ -54,7 +54,8 @@ def _assigned_names(node: ast.AST) -> list[str]:
 
 def _pure(expr: ast.AST, extra: frozenset = frozenset()) -> bool:
     for n in ast.walk(expr):
-        if isinstance(n, ast.Call) and ast.unparse(n.func) not in PURE_CALLS and ast.unparse(n.func) not in extra:
+        if isinstance(n, ast.Call) and ast.unparse(n.func) not in PURE_CALLS and ast.unparse(n.func) not in extra \
+                and not any(e.startswith(".") and ast.unparse(n.func).endswith(e) for e in extra):
             return False
         if isinstance(n, (ast.Await, ast.Yield, ast.YieldFrom, ast.NamedExpr, ast.Lambda, ast.ListComp, ast.DictComp,
                           ast.GeneratorExp, ast.SetComp)):
